@@ -300,7 +300,7 @@ wait:
 				r.abort()
 				select {
 				case <-done:
-				case <-time.After(10 * time.Second):
+				case <-time.After(2 * time.Second): // whoever is still blocked after the shutdown is leaked
 				}
 				break wait
 			}
